@@ -125,7 +125,7 @@ SPEC_OBJ = r"""
         ({
             let m = rhs.0.0@;
             let s = obj_items(St{ok: true, w: old(scopes).world(), names: old(names_in_binding)@, rem: m.dom()}, lhs@, m, bind_type, 0);
-            &&& (r is Ok) == s.ok // [C13:object_pattern_binds_named_properties_and_rest_gets_exactly_the_remaining_ones_shape_errors_are_reported]
+            &&& (r is Ok) == s.ok // [C13_C20:object_pattern_binds_named_properties_and_rest_gets_exactly_the_remaining_ones_shape_errors_are_reported]
             &&& (r is Ok ==> final(scopes).world() == s.w && final(names_in_binding)@ == s.names)
         }),
         r matches Err(e) ==> located(e), // [C17:object_destructuring_errors_are_located]
@@ -133,7 +133,7 @@ SPEC_OBJ = r"""
 SPEC_PROP = r"""
     ensures
         (r is Ok, final(scopes).world(), final(names_in_binding)@)
-            == bind_prop(old(scopes).world(), old(names_in_binding)@, *lhs, rhs.0.0@, prop_name.0@, bind_type), // [C13:a_named_property_must_exist_unless_the_target_is_underscore_and_its_value_is_bound_to_the_pattern]
+            == bind_prop(old(scopes).world(), old(names_in_binding)@, *lhs, rhs.0.0@, prop_name.0@, bind_type), // [C13_C20:a_named_property_must_exist_unless_the_target_is_underscore_and_its_value_is_bound_to_the_pattern]
         prop_name.0@ != "_"@ && !rhs.0.0@.contains_key(prop_name.0@) ==> r is Err
             && (r->Err_0 matches Error::AtLoc{source, line, col} && line == prop_name.1.0 && col == prop_name.1.1
                 && (*source matches Error::PropNotFound{name} && name@ == prop_name.0@)), // [C13:missing_property_is_reported_at_the_property_name]
@@ -223,3 +223,9 @@ def replays(failed):
     yield ("underscore discards", "{\"a\": _, b} := {\"a\": 1, \"b\": 2}\nprint(b)\n", _expect("2\n"))
     yield ("collect must be last", "{..r, a} := {\"a\": 1}\n", _expect(err_sub="only the last item"))
     yield ("non-object source", "{a} := 1\n", _expect(err_sub="1:1:"))
+    yield ("assigning through a pattern needs every target, also the collector, to be declared",
+           "o := {\"a\": 1, \"b\": 2}\na := 0\n{a, ..others} = o\nprint(a)\n", _expect(err_sub="'others' is not defined"))
+    yield ("assigning through a pattern updates the outer variables, also the collector",
+           "o := {\"a\": 1, \"b\": 2}\na := 0\nrest := null\n{\n    {a, ..rest} = o\n}\nprint(a)\nprint(rest == {\"b\": 2})\n", _expect("1\ntrue\n"))
+    yield ("a rest key named like the collector stays in the rest", "{a, ..rest} := {\"a\": 1, \"rest\": 2, \"z\": 3}\nprint(rest == {\"rest\": 2, \"z\": 3})\n", _expect("true\n"))
+    yield ("a discarded pair still needs its property", "{\"host\": _, port} := {\"port\": 80}\n", _expect(err_sub="doesn't contain property 'host'"))
